@@ -224,6 +224,10 @@ def scrut_is_param(m, hir, index):
     return any(b["local"] == l[0] for b in binds)
 
 
+ITER_CLOSURE_METHODS = {"map", "flat_map", "for_each", "filter_map", "filter", "any", "all", "find", "find_map", "fold", "try_fold",
+                        "try_for_each", "position", "inspect", "take_while", "skip_while"}
+
+
 class ArmEnv(Env):
     """Names every local of an arm by its provenance: pattern paths, destructuring lets, let-else, for-loops,
     closure parameters and the patterns of nested matches (prefix = canonical scrutinee)."""
@@ -255,6 +259,15 @@ class ArmEnv(Env):
                     for a in st["arms"]:
                         for l, p in pat_paths(strip_or(a["pat"])).items():
                             self.names.setdefault(l, "%s/%s" % (base, p) if p else base)
+                elif k == "MethodCall" and st["name"] in ITER_CLOSURE_METHODS:
+                    # closure over the elements of the receiver: name its parameter `(each <receiver>)`
+                    for x in st["args"]:
+                        clo = H.peel(x)
+                        if H.kind(clo) == "Closure" and clo["params"]:
+                            base = "(each %s)" % sexpr(st["recv"], self)
+                            idx = 1 if st["name"] in ("fold", "try_fold") and len(clo["params"]) > 1 else 0
+                            for l, pth in pat_paths(clo["params"][idx]).items():
+                                self.names[l] = "%s/%s" % (base, pth) if pth else base
                 elif k == "Closure":
                     for i, p in enumerate(st["params"]):
                         for l, pth in pat_paths(p, "C%d" % i).items():
